@@ -417,7 +417,8 @@ def custom_histories(tier):
     three separate custom-carrying calls / overwritten - then clean(): nothing may be left"""
     kinds = [0.5, 0, False, None, '', 'x', (1, 2), [1, 2], {'a': 1}, 1j, b'\x00', ('@array', 3), ('@0d', 2.0), ('@f64', 0.1), ('@i64', 7),
              ('@callable', 'sqrt'), ('@lambda', 2.0), ('@class', 'float64')]
-    names = ['kappa', 'Vpi', '_hidden'] if tier == 'thorough' else ['kappa']
+    # names: ordinary, leading underscore, dunder-like, single underscore (a name filter in clean() must not let any survive)
+    names = ['kappa', 'Vpi', '_hidden', '__tmp', '_'] if tier == 'thorough' else ['kappa', '_hidden', '__tmp', '_']
     H = []
     for nm in names:
         for v in kinds:
